@@ -84,6 +84,15 @@ CLAIMED = {
         "DESIGN.md §4 C03",
         "exploration",
     ),
+    "C07": (
+        "Hypothesis-sampled failing statements x session states x follow-ups; error-code oracle, engine-level snapshot and twin differential",
+        "54 failing statements (cause x syntactic position) are run in generated session states (open transaction, variables, cursor kind) with "
+        "generated follow-up statements; the error type/code, cursor.sqlstate life cycle, an engine-level state snapshot, the open "
+        "transaction and a twin instance that never saw the failure are the oracle. A second facet applies every public use after close(). Exploration.",
+        "Only reference-caused failures are generated; where the repo pins no exact code any of the four listed (errno, sqlstate) pairs is accepted.",
+        "DESIGN.md §4 C07",
+        "exploration",
+    ),
 }
 
 NOT_YET = {}
